@@ -59,6 +59,11 @@ theorem stopCall_lk (cfg : Cfg) (s : St) (err : Option GErr) (user : Bool) : LK 
   unfold stopCall
   refine LK_of_eq ?_ ?_ ?_ ?_ (stopLoop_lk cfg _ err user) <;> (split <;> rfl)
 
+theorem userStop_lk (cfg : Cfg) (s : St) : LK s (userStop cfg s) := by
+  rcases userStop_cases cfg s with ⟨hu, _, _⟩ | hu <;> rw [hu]
+  · exact LK_frame rfl rfl rfl rfl
+  · exact stopCall_lk _ _ _ _
+
 theorem rejoinAfterError_lk (cfg : Cfg) (s : St) (e : GErr) : LK s (rejoinAfterError cfg s e) := by
   unfold rejoinAfterError
   simp only []
@@ -86,7 +91,7 @@ theorem step_lk (cfg : Cfg) (s : St) (e : Ev) (hs : s.stopping = true) (hst : s.
   cases e with
   | leaveDone r => exact absurd rfl (hne r)
   | start => simp only [step, hst, Bool.true_or, if_true]; (first | exact same | simp [hs])
-  | stop => exact via (stopCall_lk cfg s none true) rfl rfl rfl rfl
+  | stop => exact via (userStop_lk cfg s) rfl rfl rfl rfl
   | coordDone r =>
     simp only [step]; split
     · (first | exact same | simp [hs])
